@@ -272,10 +272,7 @@ func main() {
 		QuickDeadline: 200e9, ThoroughDeadline: 1500e9, CaseTimeout: 300e9,
 		Build: func(tier string) (kit.Space, string) {
 			as := anchors(tier)
-			kinds := worldKinds[:3]
-			if tier == "thorough" {
-				kinds = worldKinds
-			}
+			kinds := worldKinds
 			scenes := make([]*scene, len(as))
 			qs := make([][]qspec, len(as))
 			var cases []caseRef
